@@ -134,8 +134,8 @@ def scenario(res, seq, use_vpc, segspec, pooling, failing, label=""):
         prev = seq[0]
         for step, adv in enumerate(seq[1:], 1):
             if failing and step == 1 and len(prev) >= 1:
-                # a node fails (and is evicted / marked failed) before the list changes
-                bad = UNIVERSE[prev[-1]]
+                # a node fails (and is evicted / marked failed) before the list changes; which one varies
+                bad = UNIVERSE[prev[-1] if failing is True else prev[(failing - 1) % len(prev)]]
                 w.nodes[bad].health = "refused"
                 for k in CORPUS[:60]:
                     try:
@@ -149,6 +149,21 @@ def scenario(res, seq, use_vpc, segspec, pooling, failing, label=""):
                     except Exception:
                         pass
                 w.nodes[bad].health = "up"
+            if failing and step == 1 and (len(seq) + len(prev)) % 2 == 0:
+                # the endpoint refuses once: the call must fail with the memcached error and leave a usable client
+                from pymemcache.exceptions import MemcacheUnknownCommandError
+                saved_cfg = w.cfg_srv.cluster_config
+                w.cfg_srv.cluster_config = "ERROR"
+                w.net.begin_call("reconf-error")
+                try:
+                    client.reconfigure_nodes()
+                    v("error-endpoint-no-exception", "endpoint answered ERROR during reconfigure but no error was raised")
+                except MemcacheUnknownCommandError:
+                    pass
+                except Exception as e:
+                    v("error-endpoint-wrong-exception:%s" % type(e).__name__, "reconfigure against an ERROR endpoint raised %r" % (e,))
+                w.cfg_srv.cluster_config = saved_cfg
+                res.count("failed_reconfigurations")
             w.advertise(adv)
             w.net.seg = driver.make_seg(segspec)
             w.net.begin_call("reconf%d" % step)
@@ -184,8 +199,9 @@ def error_endpoint(res):
     from pymemcache.client.ext.aws_ec_client import AWSElastiCacheHashClient
     from pymemcache.exceptions import MemcacheUnknownCommandError
     for use_vpc in (True, False):
+      for seg in (fakenet.Whole(), fakenet.SingleBytes(), fakenet.CutSet([2]), fakenet.CutSet([5]), fakenet.CutSet([6])):
         for when in ("construction", "reconfigure"):
-            w = World(fakenet.Whole())
+            w = World(seg)
             case = ("error-endpoint", use_vpc, when)
             res.count("error_endpoint_cases")
             try:
@@ -235,7 +251,7 @@ def shard(tier, seed, idx, n):
                     ("random", r.randrange(1 << 30))]
             segspec = segs[work % len(segs)]
             pooling = (work // 5) % 2 == 1
-            failing = (work // 10) % 3 == 0 and len(seq) > 1
+            failing = ((work // 10) % 3 == 0 and len(seq) > 1) and (True if (work // 30) % 3 == 0 else 1 + (work // 30) % 3)
             viol, case = scenario(res, seq, use_vpc, segspec, pooling, failing)
             removes = any(set(a) - set(b) for a, b in zip(seq, seq[1:]))
             nt = (seq, use_vpc, segspec[0], pooling, failing) if (removes or segspec[0] != "whole") else None
